@@ -39,17 +39,18 @@ import (
 // ---------------------------------------------------------------------------------------------
 
 type StepC struct {
-	Deps       []int `json:"deps"`
-	Cof        bool  `json:"cof"`
-	Cos        bool  `json:"cos"`
-	Retry      bool  `json:"retry"`  // a retryPolicy is present
-	Rlimit     int   `json:"rlimit"` // its limit
-	IntervalUs int   `json:"ivl"`    // its interval
-	Pre        bool  `json:"pre"`    // outcome of the step's precondition
-	HasPre     bool  `json:"haspre"`
-	Sfail      bool  `json:"sfail"`         // node.setup fails (stdout file in a directory that does not exist)
-	Fails      int   `json:"fails"`         // the first Fails attempts fail; -1: every attempt fails
-	Out        bool  `json:"out,omitempty"` // the step has an `output:` variable; the executor prints a few bytes
+	Deps       []int  `json:"deps"`
+	Cof        bool   `json:"cof"`
+	Cos        bool   `json:"cos"`
+	Retry      bool   `json:"retry"`  // a retryPolicy is present
+	Rlimit     int    `json:"rlimit"` // its limit
+	IntervalUs int    `json:"ivl"`    // its interval
+	Pre        bool   `json:"pre"`    // outcome of the step's precondition
+	HasPre     bool   `json:"haspre"`
+	Pres       []bool `json:"pres,omitempty"` // several preconditions, in this order (met / unmet); pre = all of them met
+	Sfail      bool   `json:"sfail"`          // node.setup fails (stdout file in a directory that does not exist)
+	Fails      int    `json:"fails"`          // the first Fails attempts fail; -1: every attempt fails
+	Out        bool   `json:"out,omitempty"`  // the step has an `output:` variable; the executor prints a few bytes
 	// stop / timeout streams
 	Repeat       bool   `json:"repeat,omitempty"`     // repeatPolicy.repeat
 	RepeatIvlUs  int    `json:"rivl,omitempty"`       // repeatPolicy.interval
@@ -380,7 +381,17 @@ func runCase(c *Case, id int, logDir string) {
 			s.RepeatPolicy = dag.RepeatPolicy{Repeat: true, Interval: time.Duration(sc.RepeatIvlUs) * time.Microsecond}
 		}
 		s.SignalOnStop = sc.SigOnStop
-		if sc.HasPre {
+		if len(sc.Pres) > 0 {
+			all := true
+			for _, met := range sc.Pres {
+				cond := dag.Condition{Condition: "$VERIF_PRE_MET", Expected: "1"}
+				if !met {
+					cond, all = dag.Condition{Condition: "$VERIF_PRE_UNMET", Expected: "1"}, false
+				}
+				s.Preconditions = append(s.Preconditions, cond)
+			}
+			c.Steps[i].HasPre, c.Steps[i].Pre = true, all
+		} else if sc.HasPre {
 			switch {
 			case sc.Pre && sc.SlowPreUs > 0: // evaluated by running this binary: prints 1 after the given time
 				s.Preconditions = []dag.Condition{{Condition: fmt.Sprintf("`%s - slowpre %d`", os.Args[0], sc.SlowPreUs), Expected: "1"}}
@@ -650,6 +661,21 @@ func randomCaseN(r *vh.Rng, n int, w weights, shuffle bool) Case {
 		} else if r.Chance(1, 6) {
 			s.HasPre, s.Pre = true, true
 		}
+		if s.HasPre && r.Chance(1, 2) { // two or three preconditions, every met/unmet order
+			m := 2 + r.Below(2)
+			for {
+				s.Pres = s.Pres[:0]
+				all := true
+				for j := 0; j < m; j++ {
+					met := s.Pre || r.Chance(1, 2)
+					s.Pres = append(s.Pres, met)
+					all = all && met
+				}
+				if all == s.Pre {
+					break
+				}
+			}
+		}
 		if r.Chance(1, 40) {
 			s.Sfail = true
 		}
@@ -846,16 +872,29 @@ func windowCases(r *vh.Rng, k int) []Case {
 		sc.SlowCreateUs = 20000
 		c3 := Case{Steps: []StepC{sc, hold([]int{0}, 2000)}, Policy: "hold", Handlers: handlerSet(9, r, 0), Stop: &StopC{At: 0, DelayUs: 4000 + r.Below(8000)}}
 		prep(&c3, r, "slowcreate")
-		// a command that fails by itself between the stop flag and its node's flip (Signal is held up at step 0, whose
-		// executor is being created): with and without the done channel
-		sc4 := hold([]int{}, 3000)
-		sc4.SlowCreateUs = 20000
-		fl := hold([]int{}, 6000)
-		fl.Fails = -1
-		c4 := Case{Steps: []StepC{sc4, fl}, Policy: "hold", Handlers: handlerSet(15, r, 0), Stop: &StopC{At: 0, DelayUs: 2500 + r.Below(1500)}}
-		prep(&c4, r, "failinstop")
-		c4.Done = i%2 == 1
+		c4 := failInStop(r, i%2 == 1)
 		out = append(out, c1, c2, c3, c4)
+	}
+	return out
+}
+
+// a command that fails by itself between the stop flag and its node's flip (Signal is held up at step 0, whose
+// executor is being created): with and without the done channel (fix 614b59e)
+func failInStop(r *vh.Rng, done bool) Case {
+	sc := hold([]int{}, 3000)
+	sc.SlowCreateUs = 20000
+	fl := hold([]int{}, 6000)
+	fl.Fails = -1
+	c := Case{Steps: []StepC{sc, fl}, Policy: "hold", Handlers: handlerSet(15, r, 0), Stop: &StopC{At: 0, DelayUs: 2500 + r.Below(1500)}}
+	prep(&c, r, "failinstop")
+	c.Done = done
+	return c
+}
+
+func failInStopCases(r *vh.Rng, k int) []Case {
+	var out []Case
+	for i := 0; i < k; i++ {
+		out = append(out, failInStop(r, i%3 == 2))
 	}
 	return out
 }
@@ -1065,6 +1104,7 @@ func main() {
 				cases = append(cases, stopCases(rng, logDir0, 1*mult)...)
 				cases = append(cases, windowCases(rng, 2*mult)...)
 				cases = append(cases, lateStopCases(rng, 40*mult)...)
+				cases = append(cases, failInStopCases(rng, 8*mult)...)
 			} else {
 				cases = append(cases, stopCases(rng, logDir0, 2*mult)...)
 				cases = append(cases, windowCases(rng, 4*mult)...)
